@@ -188,7 +188,13 @@ def run_shard(spec, rec):
             check_base(rec, m, rS, S, src, f1, u1, kind, "default_system")
             check_base(rec, m, rD, S, src, f2, u2, kind, "system-argument")
             check_base(rec, m, rS, S, src, q.magnitude / 3, q.units, kind, "to_base_units")
-            if dict(u1._units._d) != dict(u2._units._d) or f1 != f2:
+            # two registries with different memo histories multiply tainted (float) factors in a different
+            # order: a difference of a few ulps is float rounding, anything exact must agree exactly
+            if isinstance(f1, float) or isinstance(f2, float):
+                fdiff = abs(float(f1) - float(f2)) > 1e-12 * max(abs(float(f1)), abs(float(f2)))
+            else:
+                fdiff = f1 != f2
+            if dict(u1._units._d) != dict(u2._units._d) or fdiff:
                 rec.violation("default-vs-argument-differ", {"system": S, "src": str(src),
                                                              "default": (repr(f1), repr(dict(u1._units._d))),
                                                              "argument": (repr(f2), repr(dict(u2._units._d)))},
